@@ -264,6 +264,12 @@ def ops() -> Dict[str, Tuple[Tuple[str, ...], Callable]]:
     add("sptendiag_of", ("slab",), lambda o, m: ttb.sptendiag(m.vec(3), (3, 3)))
     add("sptendiag_col", ("slab",), lambda o, m: ttb.sptendiag(m.reg(np.array([[1.0], [2.0], [4.0]])), (3, 3, 3)))
     add("tendiag_of", ("slab",), lambda o, m: ttb.tendiag(m.vec(3), (3, 3)))
+    # an operand without stored entries: shortcuts still return a new object
+    add("sub_empty", ("sparse", "sparse2"), lambda o, m: o - ttb.sptensor(shape=o.shape))
+    add("add_empty", ("sparse", "sparse2"), lambda o, m: o + ttb.sptensor(shape=o.shape))
+    add("rsub_empty", ("sparse", "sparse2"), lambda o, m: ttb.sptensor(shape=o.shape) - o)
+    add("mul_one", ("sparse", "dense"), lambda o, m: o * 1.0)
+    add("div_one", ("sparse", "dense"), lambda o, m: o / 1.0)
     add("aggregator", ("sparse",), lambda o, m: ttb.sptensor.from_aggregator(o.subs, o.vals, o.shape))
     add("sum_add", ("sum",), lambda o, m: o + m.dense(o.shape))
     add("sum_radd", ("sum",), lambda o, m: m.dense(o.shape) + o)
